@@ -84,11 +84,11 @@ func (*verifF1) Inv(*verifF1) ct.Bool                 { panic("stub") }
 func (*verifF1) Div(_, _ *verifF1) ct.Bool            { panic("stub") }
 func (*verifF1) Sqrt(*verifF1) ct.Bool                { panic("stub") }
 
-func verifH2FRun1(id string, rev bool) {
+func verifH2FRun1(id string, rev bool, maxCount, maxL, maxIn int) {
 	const m = 1
-	count := verifLen(1, 2)
-	l := uint64(verifLen(1, 3))
-	dst, msg := verifBytes(verifLen(0, 2)), verifBytes(verifLen(0, 2))
+	count := verifLen(1, maxCount)
+	l := uint64(verifLen(1, maxL))
+	dst, msg := verifBytes(verifLen(0, maxIn)), verifBytes(verifLen(0, maxIn))
 	dst0, msg0 := append([]byte{}, dst...), append([]byte{}, msg...)
 	e := &verifExp{}
 	out := make([]verifF1, count)
@@ -161,11 +161,11 @@ func (*verifF2) Inv(*verifF2) ct.Bool                 { panic("stub") }
 func (*verifF2) Div(_, _ *verifF2) ct.Bool            { panic("stub") }
 func (*verifF2) Sqrt(*verifF2) ct.Bool                { panic("stub") }
 
-func verifH2FRun2(id string, rev bool) {
+func verifH2FRun2(id string, rev bool, maxCount, maxL, maxIn int) {
 	const m = 2
-	count := verifLen(1, 2)
-	l := uint64(verifLen(1, 3))
-	dst, msg := verifBytes(verifLen(0, 2)), verifBytes(verifLen(0, 2))
+	count := verifLen(1, maxCount)
+	l := uint64(verifLen(1, maxL))
+	dst, msg := verifBytes(verifLen(0, maxIn)), verifBytes(verifLen(0, maxIn))
 	dst0, msg0 := append([]byte{}, dst...), append([]byte{}, msg...)
 	e := &verifExp{}
 	out := make([]verifF2, count)
@@ -202,10 +202,14 @@ func verifH2FRun2(id string, rev bool) {
 }
 
 // H_h2f_degree1: prime fields (m = 1).
-func H_h2f_degree1() { verifH2FRun1("h2f_m1", true) }
+func H_h2f_degree1() { verifH2FRun1("h2f_m1", true, 2, 3, 2) }
 
 // H_h2f_degree2: quadratic extensions (m = 2, e.g. BLS12-381 Fp2).
-func H_h2f_degree2() { verifH2FRun2("h2f_m2", true) }
+func H_h2f_degree2() { verifH2FRun2("h2f_m2", true, 2, 3, 2) }
 
 // H_h2f_MUSTFAIL: wrong twin (claims the substrings are handed over big-endian, unreversed).
-func H_h2f_MUSTFAIL() { verifH2FRun1("h2f_mustfail", false) }
+func H_h2f_MUSTFAIL() { verifH2FRun1("h2f_mustfail", false, 2, 3, 2) }
+
+// thorough: count 1..3, L 1..5, tag and message lengths 0..3
+func H_h2f_degree1_more() { verifH2FRun1("h2f_m1_more", true, 3, 5, 3) }
+func H_h2f_degree2_more() { verifH2FRun2("h2f_m2_more", true, 3, 5, 3) }
